@@ -20,9 +20,10 @@ var alpha = []byte{'a', '\n', 'b'}
 // Input is one execution: the chunks are written in order; the underlying writer accepts Budget
 // bytes in total and then stops short with an error (Budget < 0: never fails).
 type Input struct {
-	Prefix string   `json:"prefix"`
-	Chunks []string `json:"chunks"`
-	Budget int      `json:"budget"`
+	Prefix string       `json:"prefix"`
+	Chunks []string     `json:"chunks"`
+	Budget int          `json:"budget"`
+	Nested *NestedInput `json:"nested,omitempty"`
 }
 
 type lim struct {
@@ -198,6 +199,11 @@ func shards(tier string) []string {
 			}
 		}
 	}
+	for oi := range nestPrefixes {
+		for ii := range nestPrefixes {
+			out = append(out, fmt.Sprintf("nest/%d/%d", oi, ii))
+		}
+	}
 	return out
 }
 
@@ -218,6 +224,12 @@ func texts(n int, lead string, f func(string)) {
 func run(c *core.Ctx) {
 	var pi, n, k int
 	short := false
+	c.Res.Bound = fmt.Sprintf("text length <= %d over {a,b,\\n}; %d prefixes; all compositions; every stop point; <=1 empty write; nested writers: %d x %d prefixes, every sequence of <= %d writes of %d chunks to the inner or the outer writer, every stop point", maxLen(c.Tier), len(prefixes), len(nestPrefixes), len(nestPrefixes), nestedDepth(c.Tier), len(nestChunks))
+	var oi, ii int
+	if _, err := fmt.Sscanf(c.Shard, "nest/%d/%d", &oi, &ii); err == nil {
+		runNested(c, nestPrefixes[oi], nestPrefixes[ii])
+		return
+	}
 	if _, err := fmt.Sscanf(c.Shard, "p%d/n%d/%d", &pi, &n, &k); err != nil {
 		if _, err := fmt.Sscanf(c.Shard, "p%d/short", &pi); err != nil {
 			panic("bad shard " + c.Shard)
@@ -309,13 +321,16 @@ func run(c *core.Ctx) {
 		lead := string([]byte{alpha[k/3], alpha[k%3]})
 		texts(n, lead, one)
 	}
-	c.Res.Bound = fmt.Sprintf("text length <= %d over {a,b,\\n}; %d prefixes; all compositions; every stop point; <=1 empty write", maxLen(c.Tier), len(prefixes))
 }
 
 func replay(tier string, raw json.RawMessage) (bool, string, string) {
 	var in Input
 	if err := json.Unmarshal(raw, &in); err != nil {
 		return false, "", "bad input: " + err.Error()
+	}
+	if in.Nested != nil {
+		ok, v := checkNested(*in.Nested)
+		return !ok, v.fingerprint, fmt.Sprintf("expected %s observed %s", v.expected, v.observed)
 	}
 	if in.Budget == -2 {
 		ok, v := checkOneShot(in.Prefix, strings.Join(in.Chunks, ""))
@@ -328,7 +343,7 @@ func replay(tier string, raw json.RawMessage) (bool, string, string) {
 func init() {
 	core.Register(&core.Prop{
 		ID: "C20", Variant: "plain", Shards: shards, Run: run, Replay: replay,
-		Rule:        "every (prefix, text over {a,b,\\n}, composition into Write calls incl. one empty Write, stop point B of the underlying writer) is one execution of the real indent.NewWriter against a reference indenter with a source-index map; states = distinct executions (generator is injective); transitions = Write calls issued; non-trivial = a fault strictly inside the output or more than one Write call",
+		Rule:        "every (prefix, text over {a,b,\\n}, composition into Write calls incl. one empty Write, stop point B of the underlying writer) is one execution of the real indent.NewWriter against a reference indenter with a source-index map; nested writers (an indenting writer whose underlying writer is another indenting writer, as the tree printers build them): every sequence of writes within the depth bound to the inner or the outer writer, switching in the middle of lines, with the bottom writer stopping at every byte - the bottom must hold the outer rendering of the stream made of the inner rendering and the direct writes, after every call, and a faulting call must return the caller bytes that reached the bottom; states = distinct executions (generator is injective); transitions = Write calls issued; non-trivial = a fault strictly inside the output or more than one Write call",
 		Assumptions: []string{"the underlying writer fails at most once and the caller stops writing after the first error", "texts over a 3-symbol alphabet stand for all texts: the writer only distinguishes line breaks from other bytes"},
 	})
 }
